@@ -32,6 +32,7 @@ def run(ctx):
             c2 = dict(c)
             c2["rot"] = r + ctx.seed
             allc.append(c2)
+    ctx.rng.shuffle(allc)       # one process replays them all: neighbours are unrelated configurations (state kept across calls)
     pj, outp = os.path.join(ctx.tmp, "c02_in.json"), os.path.join(ctx.tmp, "c02_out.json")
     json.dump(allc, open(pj, "w"))
     env = dict(os.environ, PYTHONPATH=os.pathsep.join([ROOT] + ([os.environ["VERIF_REPO"]] if os.environ.get("VERIF_REPO") else [])))
